@@ -568,6 +568,19 @@ type Tags struct {
 	z int
 }
 
+// StringOpts has several string-kind fields with the ',string' option next to each other (each one is
+// unquoted twice on the way in).
+type StringOpts struct {
+	A string  `json:"a,string"`
+	B string  `json:"b,string"`
+	C *string `json:"c,string"`
+	I int     `json:"i,string"`
+	D string  `json:"d,string"`
+	L []struct {
+		S string `json:"s,string"`
+	} `json:"l"`
+}
+
 type CaseFields struct {
 	Name  int
 	NAME  int
